@@ -13,7 +13,7 @@
 //   case id=N config=0|1 fmt=yaml|json envform=direct|overrides profflag=P|- envflag=E|-
 //        envs=e1:p0;e9:other|-  profiles=a,b,c|-  ext=child:parent,...|-
 //        fv=setting:code,...|-  ev=env.setting:code,...|-  pv=profile.setting:code,...|-
-// A value code c stands for: ttl 3600+c s, port 41000+c, token "tok<c>", pow 6+c, dir <workdir>/sd<c>,
+// A value code c stands for: ttl 3600+c s, minttl 10+c s, maxttl 30000+c s, port 41000+c, token "tok<c>", pow 6+c, dir <workdir>/sd<c>,
 // persistent 1=true 2=false.  Observed values are mapped back (built-in default -> 0, boolean
 // false -> 2, anything that belongs to no layer -> -1).
 // Cases run in-process under a watchdog (alarm + fatal-signal handlers on an alternate stack): a
@@ -63,7 +63,7 @@ static std::vector<std::string> split(const std::string& s, char sep) {
     return out;
 }
 
-static const char* kSettings[] = {"ttl", "port", "token", "pow", "dir", "persistent", "aap"};
+static const char* kSettings[] = {"ttl", "port", "token", "pow", "dir", "persistent", "aap", "minttl", "maxttl"};
 static std::pair<std::string, std::string> path_of(const std::string& s) {
     if (s == "ttl") return {"node", "default_ttl_seconds"};
     if (s == "port") return {"control", "port"};
@@ -72,6 +72,8 @@ static std::pair<std::string, std::string> path_of(const std::string& s) {
     if (s == "dir") return {"storage", "directory"};
     if (s == "persistent") return {"storage", "persistent"};
     if (s == "aap") return {"control", "advertise_allow_private"};
+    if (s == "minttl") return {"node", "min_ttl_seconds"};
+    if (s == "maxttl") return {"node", "max_ttl_seconds"};
     std::fprintf(stderr, "cfglayers: unknown setting %s\n", s.c_str());
     std::exit(2);
 }
@@ -79,6 +81,8 @@ static std::string dir_of(long c) { return g_wd + "/sd" + std::to_string(c); }
 // scalar as it appears in a document (quoted = JSON / quoted YAML string)
 static std::string doc_value(const std::string& s, long c, bool json) {
     if (s == "ttl") return std::to_string(3600 + c);
+    if (s == "minttl") return std::to_string(10 + c);       // below the built-in 30 s and below every default-TTL value used here
+    if (s == "maxttl") return std::to_string(30000 + c);    // above the built-in 6 h: the window never clamps the other settings
     if (s == "port") return std::to_string(41000 + c);
     if (s == "pow") return std::to_string(6 + c);
     if (s == "persistent" || s == "aap") return c == 1 ? "true" : "false";
@@ -193,6 +197,8 @@ static long code_of_effective(const std::string& s, const ephemeralnet::Config& 
     if (s == "pow") { long v = cfg.announce_pow_difficulty; raw = std::to_string(v); return v == 6 ? 0 : (v > 6 && v <= 24 ? v - 6 : -1); }
     if (s == "persistent") { raw = cfg.storage_persistent_enabled ? "true" : "false"; return cfg.storage_persistent_enabled ? 1 : 2; }
     if (s == "aap") { raw = cfg.advertise_allow_private ? "true" : "false"; return cfg.advertise_allow_private ? 1 : 2; }
+    if (s == "minttl") { long v = static_cast<long>(cfg.min_manifest_ttl.count()); raw = std::to_string(v); return v == 30 ? 0 : (v > 10 && v < 30 ? v - 10 : -1); }
+    if (s == "maxttl") { long v = static_cast<long>(cfg.max_manifest_ttl.count()); raw = std::to_string(v); return v == 21600 ? 0 : (v > 30000 && v < 30100 ? v - 30000 : -1); }
     if (s == "token") {
         if (!cfg.control_token) { raw = "<unset>"; return 0; }
         raw = *cfg.control_token;
@@ -299,6 +305,8 @@ int main(int argc, char** argv) {
         if (!c.envflag.empty()) { args.push_back("--env"); args.push_back(c.envflag); }
         for (const auto& t : c.fv) {
             if (t.setting == "ttl") { args.push_back("--default-ttl"); args.push_back(std::to_string(3600 + t.code)); }
+            else if (t.setting == "minttl") { args.push_back("--min-ttl"); args.push_back(std::to_string(10 + t.code)); }
+            else if (t.setting == "maxttl") { args.push_back("--max-ttl"); args.push_back(std::to_string(30000 + t.code)); }
             else if (t.setting == "port") { args.push_back("--control-port"); args.push_back(std::to_string(41000 + t.code)); }
             else if (t.setting == "token") { args.push_back("--control-token"); args.push_back("tok" + std::to_string(t.code)); }
             else if (t.setting == "pow") { args.push_back("--announce-pow"); args.push_back(std::to_string(6 + t.code)); }
